@@ -68,14 +68,34 @@ LogAttributes::LogAttributes( const LogAttributes* outer):
 string LogAttributes::getAttribute( const string& attr_name) const
 {
 
-   auto  my_attr = detail::LogAttributesContainer::getAttribute( attr_name);
+   string  attr_value;
 
 
-   if (my_attr.empty() && (mpOuter != nullptr))
-      return mpOuter->getAttribute( attr_name);
+   findAttribute( attr_name, attr_value);
 
-   return my_attr;
+   return attr_value;
 } // LogAttributes::getAttribute
+
+
+
+/// Searches for the given attribute, first in this object and then in the
+/// parent object(s), and returns its value.<br>
+/// Unlike getAttribute(), this allows to distinguish between an attribute
+/// with an empty value and an attribute that does not exist.
+///
+/// @param[in]   attr_name   The name of the attribute to return the value of.
+/// @param[out]  attr_value  Returns the value of the attribute, if found.
+/// @return  \c true if an attribute with the given name was found.
+/// @since  1.47.0, 29.09.2026
+bool LogAttributes::findAttribute( const string& attr_name,
+   string& attr_value) const
+{
+
+   if (detail::LogAttributesContainer::findAttribute( attr_name, attr_value))
+      return true;
+
+   return (mpOuter != nullptr) && mpOuter->findAttribute( attr_name, attr_value);
+} // LogAttributes::findAttribute
 
 
 
